@@ -750,6 +750,21 @@ pub fn eval_c20(sc: &Scenario, h: &History, _signed: &Signeds, out: &mut Outcome
             if emitted != want {
                 out.violate("C20.builder_certificates", "builder_balances_other_certificates_than_were_set", format!("op {}: the body carries {} certificate(s), the history's successful calls set {}", b.op, emitted.len(), want.len()));
             }
+            // ... and so are the proposals: every distinct proposal a successful call handed over is in the body, once
+            // (two proposals are the same only if action, document, deposit and return account all are)
+            let mut handed: Vec<&crate::scn::ProposalSpec> = vec![];
+            for (i, o) in sc.ops.iter().enumerate().take(b.op) {
+                if let Op::Propose(p, _) = o {
+                    if h.results.get(i).map_or(false, |r| r.is_ok()) && !handed.contains(&p) {
+                        handed.push(p);
+                    }
+                }
+            }
+            let in_body = v.proposals().map(|x| x.len()).unwrap_or(0);
+            out.count("c20.proposal_lists_compared", 1);
+            if in_body != handed.len() {
+                out.violate("C20.builder_proposals", "builder_balances_other_proposals_than_were_set", format!("op {}: the body carries {} proposal(s), the history's successful calls handed over {} distinct one(s)", b.op, in_body, handed.len()));
+            }
             // explicit amounts: a registration / deregistration the history built with an explicit amount is
             // in the body in its Conway form with exactly that amount (read by the harness reader)
             let from = sc.ops.iter().enumerate().take(b.op).filter(|(i, o)| matches!(o, Op::RemoveCerts | Op::SetCertsLegacy | Op::SetCertsLegacyWith(_)) && h.results.get(*i).map_or(false, |r| r.is_ok())).map(|(i, _)| i + 1).last().unwrap_or(0);
